@@ -80,6 +80,7 @@ class Facts:
         for a in self.raw["adts"]:
             if a["kind"] == "Enum":
                 ENUMS[a["name"]] = frozenset(v["name"] for v in a["variants"])
+        self.consts = {c["path"].split("::")[-1]: c.get("val") for c in self.raw.get("consts", [])}
         self.impls = self.raw["impls"]
         self.unsafe = self.raw["unsafe"]
         self._closure_env = {}
@@ -888,6 +889,85 @@ class Body:
 
     def facts_at(self, site):
         return self.facts_in().get(site[0], frozenset())
+
+    def early_exits(self, hdr):
+        """for the loop whose header block `hdr` ends in the iterator's `next` call: edges that leave the loop body other than
+        through the exhausted iterator, on a path that is not error propagation (`?`, `return Err(..)`) — i.e. `break` and
+        early `return` of a success value.  Returns [(from_block, to_block)]."""
+        t = self.blocks[hdr]["term"]
+        if t["k"] != "call" or t.get("target") is None:
+            return []
+        sw = t["target"]
+        st = self.blocks[sw]["term"]
+        if st["k"] != "switch":
+            return []
+        some = none = None
+        for val, tb in st["targets"]:
+            if val == 1:
+                some = tb
+            elif val == 0:
+                none = tb
+        if some is None:
+            some = st.get("otherwise")
+        if some is None:
+            return []
+
+        def reach(start, stop):
+            seen = set()
+            stack = [start]
+            while stack:
+                x = stack.pop()
+                if x in seen or x == stop:
+                    continue
+                seen.add(x)
+                stack.extend(y for y, _ in self.succ[x])
+            return seen
+        rs = reach(some, hdr)
+        # blocks of the body proper: those from which the header can be reached again
+        back = set()
+        changed = True
+        while changed:
+            changed = False
+            for x in rs:
+                if x not in back and any(y == hdr or y in back for y, _ in self.succ[x]):
+                    back.add(x)
+                    changed = True
+        out = []
+        for bq in back:
+            for x, _ in self.succ[bq]:
+                if x == hdr or x in back or x not in rs:
+                    continue
+                # x leaves the loop: is it error propagation / a panic?
+                err = False
+                seen = set()
+                stack = [x]
+                steps = 0
+                while stack and steps < 60:
+                    y = stack.pop()
+                    if y in seen:
+                        continue
+                    seen.add(y)
+                    steps += 1
+                    blk = self.blocks[y]
+                    ty = blk["term"]
+                    if ty["k"] == "call" and ty["callee"].get("name") in ("from_residual",):
+                        err = True
+                        break
+                    if any(s2.get("k") == "assign" and s2["rv"]["k"] == "aggregate" and s2["rv"].get("variant") in ("Err",) and
+                           s2["lhs"]["local"] == 0 for s2 in blk["stmts"]):
+                        err = True
+                        break
+                    if ty["k"] in ("unreachable",) or (ty["k"] == "call" and ty.get("target") is None):
+                        err = True       # diverges
+                        break
+                    if ty["k"] == "return":
+                        break
+                    if none is not None and y == none:
+                        break
+                    stack.extend(z for z, _ in self.succ[y] if z not in back and z != hdr)
+                if not err and x in self.can_return:
+                    out.append((bq, x))
+        return out
 
     def presence_assertions(self):
         """facts `discr(x) ∈ {Some}` / `{Ok}` contributed by a switch whose other outcomes never reach a normal return
